@@ -129,6 +129,13 @@ impl<'a, F> DataFrameEmitter<'a, F> where F: FnMut(Box<[u8]>) {
         return Ok(());
     }
 
+    // Returns true if the transfer window has room for a new frame in addition to the frame in
+    // progress, i.e. if the first datagram of another packet can certainly be placed
+    pub fn can_begin_packet(&self) -> bool {
+        let frames_needed = if self.in_progress_frame.is_some() { 2 } else { 1 };
+        return self.frame_queue.free_count() >= frames_needed;
+    }
+
     pub fn finalize(&mut self) {
         if let Some(next_frame) = self.in_progress_frame.take() {
             let frame_bytes = next_frame.fbuilder.build();
